@@ -327,7 +327,7 @@ func (c10) RunCase(c *core.Ctx) {
 		}
 		for _, f := range fronts {
 			b := spec.Build(n, &spec.Hooks{FieldOrder: permutedOrder(c.R)})
-			o, env, data := frontExec(b, n, rec, f, nil, false)
+			o, env, data := frontExec(b, n, rec, f, nil, c.R.Bool()) // half of the flat renderings carry stray look-alike parameters
 			c.Eval(1)
 			exp := ref.Eval(n, env, data, nil)
 			det := func(extra map[string]any) map[string]any {
